@@ -178,6 +178,40 @@ func runC08(r *Report) {
 		}
 	}
 
+	// every other delete of the client index in the package is guarded the same way
+	for _, f := range csFuncs {
+		if f.Name() == "UnregisterConnection" {
+			continue
+		}
+		for _, d := range Calls(f, false, "Delete") {
+			kc, _ := CallOfValue(d.Common().Args[0])
+			if kc == nil || CalleeOf(kc).Name != "makeClientKey" {
+				continue
+			}
+			ok := false
+			for _, ft := range Facts(d.Block()) {
+				if c, isC := stripValue(ft.Cond).(*ssa.Call); isC && ft.Pol && CalleeOf(c).Fn != nil {
+					for i := range c.Call.Args {
+						if i < len(CalleeOf(c).Fn.Params) && summaryTrueImpliesEq(CalleeOf(c).Fn, CalleeOf(c).Fn.Params[i]) {
+							ok = true
+						}
+					}
+				}
+				if bo, isB := ft.Cond.(*ssa.BinOp); isB && bo.Op == token.EQL && ft.Pol {
+					ok = true
+				}
+			}
+			r.Ob("R-C08-2", CallPos(d), ok, "delete of the client index in "+f.Name()+" must be guarded by a comparison of the stored value with the connection it is removed for (a re-handshake on another node may have replaced it)", f.Name(), "guarded-client-index-delete")
+		}
+	}
+
+	// the records live in the shared tier for set, get, delete and exists alike
+	checkSharedFamilyTiers(r, "R-C08-4")
+	for _, pre := range []string{"tunnox:conn_state:", "tunnox:client_conn:"} {
+		cat := hybridCategory(r, pre+"x")
+		r.Ob("R-C08-4", 0, cat == "shared", fmt.Sprintf("key family %q classifies as %s in the tiered configuration (want shared)", pre, cat), hybPkg, "family-shared:"+pre)
+	}
+
 	// ---- R-C08-3 keep-alive covers every TTL'd family -------------------------------
 	hb := r.need("R-C08-3", sessPkg, "SessionManager.handleHeartbeat")
 	reg := r.need("R-C08-3", csPkg, "Store.RegisterConnection")
